@@ -121,14 +121,16 @@ CHECKS = {
          "sets x every file-length residue modulo 64 x owner histories (move, box, send, Arc with two readers); each terminal "
          "state is replayed on a real file: store() bytes = serialize() bytes, loaded structure = original value, region "
          "(through the cfg hook) capacity / alignment / zero tail / containment of every borrowed part, digest stable across "
-         "moves and threads; replayed for the default feature set and for the build without mmap. Implementation -> "
+         "moves and threads, also for files of 15-45 KB made of many small items; replayed for the default feature set and for "
+         "the build without mmap. Implementation -> "
          "specification: the same cases run under strace; open flags of store(), bytes written, statx, mmap length / protection "
          "/ backing, allocator calls (size, alignment), read lengths, mprotect, and the Flags -> madvise table are validated "
          "by TLC against Trace_Loader.tla. Fresh allocations are poisoned so that the zero tail is the library's doing.",
          "6 C08"),
  "C09": ("model checking + conformance replay (failure causes x loaders); lifetime part by generated compile probes",
          "TLC checks ReleasedAtMostOnce, NoLeakOnFailure, ReleasedWhenDropped, StructureBeforeBackend on MemCase.tla over every "
-         "loader x failure cause (wrong type, wrong align hash, corrupt, truncated, empty, missing, over-aligned type); each is "
+         "loader x failure cause (wrong type, wrong align hash, corrupt, truncated, empty, missing, over-aligned type, a directory "
+         "in place of the file: the read step fails) and the in-memory case (MemCase::encase, no backend); each is "
          "replayed on a real file with the tracking allocator (live heap bytes) and /proc/self/maps (mappings) compared before "
          "the load, after a failed load and after the drop of a successful one; a canary structure whose Drop reads its "
          "borrowed slice observes the drop order. Implementation -> specification: every case also runs under strace; munmap / "
